@@ -39,8 +39,8 @@ MANIFEST = {
     "technique": "Lean 4 decision-table proof over a source-order transcription of Path.__init__ + bracket model of change_to_path_dir; "
                  "regenerated flag table; exhaustive differential correspondence under an unprivileged uid",
     "text": "Theorems in lean/Jap/Props/C19.lean prove, for all modes and all well-formed file-system snapshots, that the model of Path.__init__ "
-            "accepts iff every flag of the mode is satisfied as the class docstring describes it, away from two guarded classes (an existing FIFO under "
-            "'fc'; 'cc' below a non-directory: open known findings, refutation witnesses proved), that every rejection is one of the fifteen PathError "
+            "accepts iff every flag of the mode is satisfied as the class docstring describes it (full strength; the pre-fix code of the two repaired "
+            "defects F19c/F19f is kept as a regression record), that every rejection is one of the fifteen PathError "
             "raises (no OSError escapes), the absolute/relative bookkeeping, and for all nested load programs, failing ones included, that every path "
             "value is resolved against the directory of its innermost enclosing config file and that cwd and current_path_dir are restored. The model is "
             "tied to the code by regenerating the rules of _check_mode and the flag tests of __init__ into Gen/PathFlags and by an exhaustive comparison "
